@@ -67,8 +67,14 @@ def _cleanup_work():
         shutil.rmtree(w, ignore_errors=True)
 
 
+def _scratch_base():
+    # one scratch area per copy of /verif (a `vp run` snapshot and the working copy must not share slots: their locks differ)
+    import hashlib
+    return os.path.join(tempfile.gettempdir(), "splint_mut_" + hashlib.sha1(VERIF.encode()).hexdigest()[:8])
+
+
 def do_mutant(m, slot):
-    base = os.path.join(tempfile.gettempdir(), "splint_mut")
+    base = _scratch_base()
     d = os.path.join(base, "m%d" % slot)
     # a slot (scratch copy + its cargo target dir) is used by one mutants.py process at a time
     import fcntl
@@ -109,7 +115,7 @@ def _do_mutant_locked(m, slot, d):
                 return {"name": m["name"], "status": "skipped", "why": "anchor text found %d times" % s.count(m["old"])}
             open(p, "w").write(s.replace(m["old"], m["new"]))
         # facts and cargo target directory of the checks on the scratch copy: outside /verif and /repo, removed when the sweep ends
-        work = os.path.join(tempfile.gettempdir(), "splint_mut", "w%d" % slot)
+        work = os.path.join(_scratch_base(), "w%d" % slot)
         _USED_WORK.add(work)
         props = m.get("props") or all_props()
         res = run_checks(d, work, props)
